@@ -296,8 +296,9 @@ static inline uint8_t *h265hvcc_nalu_get_nalu(const uint8_t *p)
 /* ---- one array: completeness/type octet, numNalus(16), entries ---- */
 static inline void h265hvcc_array_set_nal_unit_type(uint8_t *p, uint8_t val)
 {
-    p[0] &= ~0x3f;
-    p[0] |= val & 0x3f;
+    /* the whole octet (array_completeness and the reserved bit are 0): the framer writes into memory it has not
+     * initialised, a read-modify-write would leave two bits of every array header to chance */
+    p[0] = val & 0x3f;
 }
 
 static inline uint8_t h265hvcc_array_get_nal_unit_type(const uint8_t *p)
